@@ -708,6 +708,54 @@ def impl_buckets(wb, codes, faults, rep, case, ctx):
     return out
 
 
+def text_stream(ctx, ExcelCompiler):
+    """Oracle only: text-valued formula cells whose stored result is altered in ways a lenient comparison would
+    miss - letter case only, a trailing or leading blank, an accent - under every tolerance and choice of outputs."""
+    import os
+    from harness import wbgen
+    rng = ctx.rng
+    path = os.path.join(ctx.work, 'text_case.xlsx')
+    os.makedirs(ctx.work, exist_ok=True)
+    for k in range(ctx.n(8, 60)):
+        wb = wbgen.WB()
+        base = rng.choice(['Widget', 'abc', 'MiXed', 'total', 'Zürich'])
+        a = wb.add_input(base)
+        b = wb.add_input(rng.choice(['-x', ' b', 'Q']))
+        f1 = wb.add_formula('=A1&A2', [a, b], [0])
+        f2 = wb.add_formula('=A3&"!"', [f1], [0])
+        f3 = wb.add_formula('=A4=A3', [f2, f1], [0])
+        formulas = [f1, f2, f3]
+        ref = ExcelCompiler(excel=wb.to_openpyxl())
+        good = {i: ref.evaluate(wb.nodes[i]['addr']) for i in formulas}
+        desc = [(x['addr'], x.get('value'), x.get('text')) for x in wb.nodes]
+        for p in (f1, f2):
+            v = good[p]
+            for kind, v2 in (('text-case', v.swapcase()), ('text-upper', v.upper() if v.upper() != v else v.lower()),
+                             ('text-blank', v + ' '), ('text-lead', ' ' + v)):
+                tol = rng.choice([None, 0.001, 1])
+                altered = dict(good)
+                altered[p] = v2
+                wbgen.write_xlsx_with_results(wb, altered, path)
+                paddr = wb.nodes[p]['addr']
+                outs = rng.choice([None, [paddr], [wb.nodes[f3]['addr']], [wb.nodes[f2]['addr']]])
+                comp = ExcelCompiler(filename=path)
+                case = dict(call='validate', workbook=desc, args=[outs, tol], perturbed=[paddr, v, v2, kind],
+                            stream='text')
+                try:
+                    rep = quiet(comp.validate_calcs, output_addrs=outs, tolerance=tol)
+                except Exception as exc:      # noqa: BLE001
+                    ctx.violation(case, f"validate_calcs raises {type(exc).__name__}: {exc}"[:200])
+                    continue
+                ctx.count(('text', k, p, kind, tol, repr(outs)), kind='text:' + kind)
+                m = rep.get('mismatch', {}).get(paddr)
+                if m is None:
+                    ctx.violation(case, "the altered cell is not reported as a mismatch", impl=repr(rep)[:300],
+                                  expected=paddr)
+                elif m.original != v2 or m.calced != v:
+                    ctx.violation(case, "the mismatch does not carry the stored and the recomputed value",
+                                  impl=[m.original, m.calced], expected=[v2, v])
+
+
 def failing_stream(ctx, ExcelCompiler):
     """validate_calcs on .xlsx files some of whose formula cells raise — an unknown function (whole formula, or the
     right operand of +), a plugin function that raises RuntimeError / NotImplementedError — against the loop of
@@ -1075,6 +1123,7 @@ def run(ctx):
     magnitude_stream(ctx, ExcelCompiler, batch)
     unbounded_stream(ctx, ExcelCompiler)
     failing_stream(ctx, ExcelCompiler)
+    text_stream(ctx, ExcelCompiler)
     if ctx.model:
         compare(ctx, batch)
     close_enough_leg(ctx)
